@@ -574,6 +574,13 @@ namespace xsimd
             }
             batch_type z = ex * detail::erf_kernel<batch_type>::erfc3(x);
             r1 = select(test2, r1, z);
+            batch_type lim3(6.);
+            auto test4 = x < lim3;
+            if (!all(test4))
+            {
+                z = ex * detail::erf_kernel<batch_type>::erfc4(batch_type(1.) / x);
+                r1 = select(test4, r1, z);
+            }
 #ifndef XSIMD_NO_INFINITIES
             r1 = select(x == constants::infinity<batch_type>(), batch_type(0.), r1);
 #endif
